@@ -12,8 +12,12 @@ Input : [flavour, workers, mkRaise, intr, mfaults, tb, schedule]
         mfaults = indices of main's own calls on the caller's result that raise (stream: status; suite: stop)
         tb      = number of chunks of a broken-runner traceback, measured on the implementation (stream)
         schedule = list of thread ids: 0 = the thread calling run(), w+1 = worker w
-        an optional 8th component = realisation hints, which do not change what the model predicts (atoms): routes (worker 0 gets
-        the route code None, worker 1 the route code '', stream flavour), emptyId (test 0 has the id ''), wrap (suite flavour:
+        an optional 8th component = a list of
+        * ['routeCodes', [c0, c1, ..]] (stream flavour): the route code make_tests gives to each worker, as a small number - codes may
+          REPEAT (several workers given None, or the same string); without it worker w has the code w.  Part of the model's input:
+          an observed event carries its route code, not the index of the worker that emitted it
+        * realisation hints, which do not change what the model predicts (atoms): routes (the route code 0 is None, the code 1 is '',
+          stream flavour; the others are str(code)), emptyId (test 0 has the id ''), wrap (suite flavour:
         wrap_result wraps each forwarder in a pass-through TestResultDecorator), and what kind of object a sub-suite is -
         testSuites (a unittest.TestSuite holding the worker's 0..3 tests: unhashable, equal to any suite holding equal tests),
         equalCases (instances of one unittest.TestCase class with the same method name: all equal, same hash),
@@ -133,7 +137,7 @@ class Sink:
 
     def __init__(self, sch, faults, routes=None):
         self.s, self.faults, self.events, self.n = sch, set(faults), [], 0
-        self.routes = routes or {}          # route code -> worker, for the codes that are not str(worker)
+        self.routes = routes or {}          # route code -> its number, for the codes that are not str(number)
 
     def status(self, test_id=None, test_status=None, test_tags=None, runnable=True, file_name=None, file_bytes=None,
                eof=False, mime_type=None, route_code=None, timestamp=None):
@@ -218,10 +222,11 @@ class C13(Prop):
             '(test id, any status / file chunk with or without eof, test_tags absent / empty / given, timestamp keyword omitted / None / a given instant); '
             'workers with no test / that emit nothing; a sub-suite is a plain object, a unittest.TestSuite holding its tests (unhashable; empty ones are equal), an instance of one '
             'unittest.TestCase class (all equal, same hash), the SAME object yielded for several workers, or - suite flavour, `polls` - a stock unittest.TestSuite whose own run() reads '
-            'result.shouldStop before every element; realisation hints that leave the prediction unchanged: route codes None and \'\', the empty test id, a pass-through '
+            'result.shouldStop before every element; stream flavour: route codes drawn from a small alphabet WITH repetition (40 % of the cases with >= 2 workers: all workers given one code, '
+            'two codes, three codes - the code 0 being None and 1 the empty string under the hint `routes`); realisation hints that leave the prediction unchanged: route codes None and \'\', the empty test id, a pass-through '
             'wrap_result; workers raising from run(), worker-side faults of the caller\'s TestResult (suite; also at the shouldStop read), make_tests raising after k sub-suites, '
             'an interrupt at main\'s m-th queue.get(), the caller\'s result raising at main\'s j-th call (stream: status; suite: stop in the abort path); '
-            'schedules: quick = every schedule with <= 2 pre-emptions of 11 small base configurations + random / bursty / few-pre-emption schedules of random '
+            'schedules: quick = every schedule with <= 2 pre-emptions of 13 small base configurations + random / bursty / few-pre-emption schedules of random '
             'configurations; thorough adds every schedule with <= 2 pre-emptions for 2 workers x 2 tests, <= 1 for 3 workers, and every single fault position / interrupt position / make_tests failure position (<= 1 pre-emption), also for stock TestSuite partitions and for equal / identical / unhashable sub-suite objects. non-trivial = at least 2 workers started; '
             'distinct = distinct input S-expression')
     assumptions = ['threading.Thread start/join, threading.Semaphore(1) and queue.Queue (unbounded FIFO) semantics are modelled (harness/sched.py doubles), not verified',
@@ -237,7 +242,11 @@ class C13(Prop):
                    'the number of chunks of a broken-runner traceback is measured on the implementation and given to the model (stream flavour)',
                    'per-worker results are the default ones or (hint wrap) a pass-through TestResultDecorator; the caller\'s result raises Exception subclasses only '
                    '(a BaseException from status()/stop() is outside the documented fault domain of C13; C12 mixes both kinds); API test ids '
-                   'are positional (repeated ids are covered by native emitters only); two workers of the stream flavour never share a route code',
+                   'are positional (repeated ids are covered by native emitters only)',
+                   'stream flavour: the caller\'s result knows a worker by its route code only, and make_tests may hand the same code (None, the same string) to several workers: the `delivered` clause '
+                   'then demands that the events under a code are an interleaving of (prefixes of) the event sequences of the started workers with that code - each worker\'s own order kept, '
+                   'nothing twice, on normal return nothing missing; which of two colliding workers emitted an event both would emit next cannot be observed and is not claimed. For a code held by one '
+                   'started worker this is the plain per-worker prefix / equality clause (theorem C13_merge_single)',
                    'translator ties (harness/suiteskel.py + harness/tfrskel.py): the try / except Exception / finally structure of both _run_test methods and the '
                    'skeletons of ThreadsafeForwardingResult are re-read from the source on every run (theorems C13_src_run_test_suite / _stream, C12_src_*); trusted: '
                    'the interpreters\' reading of sequencing / try-except / try-finally and that each recognised statement is what its name says; run() itself (the '
@@ -249,7 +258,8 @@ class C13(Prop):
                 'schedule (arbitrary list of thread ids, unbounded), for both ConcurrentTestSuite and ConcurrentStreamTestSuite - a worker being its position in what make_tests yields, whatever '
                 'object the sub-suite is (unhashable unittest.TestSuite, equal TestCases, the same object twice; stock TestSuite partitions with their shouldStop reads): no reachable state is stuck and every run ends '
                 '(run() returns or raises, every started thread ends); on normal return every sub-suite was started, ran once, has terminated and every event it emitted reached '
-                'the caller\'s result exactly once in that worker\'s order (stream: with its route code and a time stamp - the emitter\'s own instant if it gave one, '
+                'the caller\'s result exactly once in that worker\'s order (stream: with its route code and a time stamp - the emitter\'s own instant if it gave one; route codes may be shared by '
+                'several workers, the events under a code are then an interleaving of those workers\' sequences, C13_same_route_code, and exactly the one worker\'s sequence when the code is not shared, C13_merge_single; '
                 'for TestResult-API tests and for tests that call result.status() themselves; suite: one whole well-shaped block at a time - C12\'s invariant incl. '
                 'main\'s stop() calls); on abort what was delivered is still a prefix per worker; a raising sub-suite yields exactly one errored broken-runner test; if run() '
                 'raises the exception is the injected one and every registered worker is told to stop (suite: one stop() per registered worker; stream: its shouldStop is set and '
@@ -285,7 +295,9 @@ class C13(Prop):
         import testtools.testsuite as ts
         flavour, wspecs, mk, intr, mfaults, tb, schedule = inp[:7]
         hints = inp[7] if len(inp) > 7 else []
-        route = lambda n: ({0: None, 1: ''}.get(n, str(n)) if 'routes' in hints else str(n))
+        codes = next((h[1] for h in hints if isinstance(h, list) and h[0] == 'routeCodes'), None)
+        code = lambda n: codes[n] if codes is not None and n < len(codes) else n        # the route code of worker n, as a small number
+        route = lambda n: ({0: None, 1: ''}.get(code(n), str(code(n))) if 'routes' in hints else str(code(n)))
         mk = None if mk is None else mk[1]
         intr = None if intr is None else intr[1]
         sch = S.Scheduler(schedule)
@@ -482,6 +494,9 @@ class C13(Prop):
             ['suite', [[[t()], False, []], [[t()], False, []]], None, None, [], tb, ['sameObject']],
             ['suite', [[[], False, []], [[], False, []]], None, None, [], tb, ['testSuites']],
             ['suite', [[[t()], False, []], [[t('error')], False, []]], None, some(1), [0], tb, ['equalCases']],
+            # make_tests gives both workers the SAME route code (here None): the caller cannot tell them apart by anything but the events
+            ['stream', [[[t()], False, []], [[t()], True, []]], None, None, [], tb, [['routeCodes', [0, 0]], 'routes']],
+            ['stream', [[[t('skip')], False, []], [[], False, []]], None, None, [1], tb, [['routeCodes', [1, 1]]]],
         ]
 
     def systematic(self, configs, k):
@@ -514,6 +529,9 @@ class C13(Prop):
             self._sys_left = 0
         cfg = self.gen_config(rng)
         hints = [h for h in (['routes', 'emptyId'] if cfg[0] == 'stream' else ['wrap', 'emptyId']) if rng.random() < 0.25]
+        if cfg[0] == 'stream' and len(cfg[1]) >= 2 and rng.random() < 0.4:
+            k = rng.choice([1, 1, 2, 2, 3])     # route codes from a small alphabet, WITH repetition (make_tests may hand out None to everyone)
+            hints.append(['routeCodes', [rng.randrange(k) for _ in cfg[1]]])
         kind = rng.random()         # what kind of object a sub-suite is (both flavours; the suite flavour used to key a dict by it)
         if kind < 0.25:
             hints.append('testSuites')
@@ -564,6 +582,18 @@ class C13(Prop):
                 yield from self.systematic([['suite', ws, None, None, [], tb]], 1)
         for m in range(4):
             yield from self.systematic([stock[:3] + [some(m), [m % 2], tb]], 1)
+        # equal route codes (stream): <= 2 pre-emptions; every position of a raising status() call, of an interrupt, of a make_tests failure
+        for hints in ([['routeCodes', [0, 0]]], [['routeCodes', [0, 0]], 'routes']):
+            shared = ['stream', [[[t()], False, []], [[t('error')], True, []]], None, None, [], tb, hints]
+            yield from self.systematic([shared], 2)
+            for f in range(12):
+                yield from self.systematic([shared[:4] + [[f], tb, hints]], 1)
+            for m in range(5):
+                yield from self.systematic([shared[:3] + [some(m), [], tb, hints]], 1)
+                if m <= 3:
+                    yield from self.systematic([shared[:2] + [some(m), None, [], tb, hints]], 1)
+        three_shared = ['stream', [[[t()], False, []], [[t()], False, []], [[t('skip')], False, []]], None, None, [], tb, [['routeCodes', [0, 1, 0]]]]
+        yield from self.systematic([three_shared], 1)
         # what kind of object the sub-suites are: equal cases, one object twice, unhashable suites - with and without an abort
         for hint in ('equalCases', 'sameObject', 'testSuites'):
             same = ['suite', [[[t('failure')], False, []], [[t('failure')], False, []]], None, None, [], tb, [hint]]
@@ -577,7 +607,7 @@ class C13(Prop):
 
     def features(self, inp, trace):
         flavour, workers, mk, intr, mfaults, tb, schedule = inp[:7]
-        f = ['hint:' + h for h in (inp[7] if len(inp) > 7 else [])] + ['flavour=' + flavour, 'workers=%d' % len(workers), 'tests=%s' % min(sum(len(w[0]) for w in workers), 7)]
+        f = ['hint:' + h for h in (inp[7] if len(inp) > 7 else []) if isinstance(h, str)] + ['flavour=' + flavour, 'workers=%d' % len(workers), 'tests=%s' % min(sum(len(w[0]) for w in workers), 7)]
         nat = [ev for w in workers for t in w[0] if len(t) == 3 for ev in t[2]]
         if flavour == 'stream' and any(len(t) == 3 for w in workers for t in w[0]):
             f.append('native-emitter')
@@ -586,6 +616,20 @@ class C13(Prop):
                 f.append('native-ts:' + (ev[3] if isinstance(ev[3], str) else 'given'))
                 f.append('native-kind:' + (ev[1][1] if ev[1][0] == 'st' else 'file'))
         hs = inp[7] if len(inp) > 7 else []
+        codes = next((h[1] for h in hs if isinstance(h, list) and h[0] == 'routeCodes'), None)
+        if codes is not None and flavour == 'stream':
+            cs = codes[:len(workers)]
+            f.append('route-codes-given')
+            if len(set(cs)) < len(cs):
+                f.append('shared-route-code')
+                dup = {c for c in cs if cs.count(c) > 1}
+                if 'routes' in hs and 0 in dup:
+                    f.append('shared-route-code=None')
+                if 'routes' in hs and 1 in dup:
+                    f.append("shared-route-code=''")
+                if isinstance(trace, list) and len(trace) == 10 and isinstance(trace[3], list) \
+                        and any(sum(1 for w in trace[3] if w < len(cs) and cs[w] == c) > 1 for c in dup):
+                    f.append('two-started-workers-share-a-route-code')
         if 'sameObject' in hs and len(set(repr(w[:2]) for w in workers)) < len(workers):
             f.append('one-object-yielded-twice')
         if 'testSuites' in hs and sum(1 for w in workers if not w[0]) >= 2:
@@ -648,8 +692,18 @@ class C13(Prop):
         for j in range(len(hints)):                      # drop a realisation hint
             h = hints[:j] + hints[j + 1:]
             yield inp[:7] + ([h] if h else [])
+        workers = inp[1]
         for cand in self.shrink7(inp[:7]):
-            yield cand + ([hints] if hints else [])
+            h = hints
+            if len(cand[1]) < len(workers):             # a worker was dropped: its route code goes with it
+                i = next((k for k in range(len(cand[1])) if cand[1][k] != workers[k]), len(cand[1]))
+                h = [[x[0], x[1][:i] + x[1][i + 1:]] if (isinstance(x, list) and x[0] == 'routeCodes') else x for x in hints]
+            yield cand + ([h] if h else [])
+        for j, x in enumerate(hints):                   # route codes: make one worker's code its own
+            if isinstance(x, list) and x[0] == 'routeCodes':
+                for k in range(len(x[1])):
+                    fresh = max(x[1] + [len(workers)]) + 1
+                    yield inp[:7] + [hints[:j] + [[x[0], x[1][:k] + [fresh] + x[1][k + 1:]]] + hints[j + 1:]]
 
     def shrink7(self, inp):
         flavour, workers, mk, intr, mfaults, tb, schedule = inp
